@@ -26,7 +26,7 @@ ASSUMPTIONS = ['Pool.starmap order preserving; jobs touch no worker-local state 
 REQUIRED_CLASSES = ['gnim:extracted', 'ladder:two-imfs', 'zc:count-positive']
 EXPECTED_LABELS = ['never-raises', 'masked-imf-is-phase-average-with-mask-removed', 'continue-flag-is-any', 'zero-amplitude-is-plain-extraction',
                    'returned-mask-frequencies', 'imf-uses-documented-frequency-and-amplitude', 'no-worker-local-state']
-BUDGET_S = {'quick': 170, 'thorough': 1200}
+BUDGET_S = {'quick': 170, 'thorough': 900}
 OPTS = {'quick': {'sample_every': 17, 'path_wall_s': 15}, 'thorough': {'sample_every': 31, 'timeout_ms': 20000}}
 IMF_OPTS = {'stop_method': 'fixed', 'max_iters': 1}
 TOL = 1e-9
